@@ -20,7 +20,8 @@ def locs_for(rng):
 def gen_c01(rng, n_ops):
     policy = rng.choice(["woi", "woe"])
     cfg = H.cfg_line(policy=policy, algo=rng.choice(H.ALGOS), mem=rng.choice([1, 2, 100]), univ=3,
-                     tomb=rng.choice([0, 1]), blocks=16, flushers=rng.choice([1, 2]))
+                     tomb=rng.choice([0, 1]), blocks=16, flushers=rng.choice([1, 2]),
+                     admit=rng.choice(["all", "all", "all", "size<8000", "0,1"]))
     locs = locs_for(rng)
     ops, ver, held = [], 1, False
     for _ in range(n_ops):
